@@ -18,7 +18,7 @@ import unittest
 import struct
 
 # Site-Packages
-from numpy import zeros, array, newaxis
+from numpy import zeros, array
 
 # This Package modules
 from PseudoNetCDF.camxfiles.timetuple import timediff, timerange
@@ -108,8 +108,9 @@ class uamiv(PseudoNetCDFFile):
         spcnames = [sn.strip() for sn in self.spcnames]
         if self.name == 'EMISSIONS ':
             def constr(spc):
-                return self.getArray(
-                    nspec=spcnames.index(spc)).squeeze()[:, newaxis, :, :]
+                return self.getArray(nspec=spcnames.index(spc)).reshape(
+                    len(self.dimensions['TSTEP']), self.nlayers,
+                    len(self.dimensions['ROW']), len(self.dimensions['COL']))
 
             def decor(spc):
                 return dict(units=units, var_desc=spc,
@@ -173,8 +174,8 @@ class uamiv(PseudoNetCDFFile):
 
         if self.name == 'EMISSIONS ':
             # Special case of gridded emissions
-            # Seems to be same as avrg
-            self.nlayers = 1
+            # Seems to be same as avrg; older files declare nz = 0
+            self.nlayers = max(self.nz, 1)
         else:
             self.nlayers = self.nz
         self.ione, ione, nx, ny = self.rffile.read(self.cell_hdr_fmt)
